@@ -26,6 +26,8 @@ def junk_block(rng, e):
         return (0x00000BAD, struct.pack(e + "I", 32473) + rng.randbytes(rng.randrange(0, 40)))
     if k == "custom-nocopy":
         return (0x40000BAD, struct.pack(e + "I", 32473) + rng.randbytes(rng.randrange(0, 40)))
+    if rng.random() < 0.25:     # non-packet blocks are not bounded by the snap length: name-resolution / custom blocks of several hundred kB exist
+        return (rng.choice([0x00000BAD, 0x0000ABCD, 4 if e == "!" else 0x40000BAD]), struct.pack(e + "I", 32473) + rng.randbytes(rng.choice([70000, 266232, 266236, 300000, 1048576])))
     return (rng.choice([0x0000ABCD, 0x00000007, 0x00000009, 0x80000001]), rng.randbytes(rng.randrange(0, 64)))
 
 
@@ -51,6 +53,7 @@ def containers(rng, pk, grid, thorough):
         off = rng.choice([1, 3600, 1600000000, -5])
         out.append((f"pcapng-{tag}-tsoffset", ns.pcapng(pk, le=le, tsoffset=off), False))
         out.append((f"pcapng-{tag}-tsresol9-tsoffset-junk", ns.pcapng(with_junk(rng, pk, e, 3), le=le, tsresol=9, tsoffset=off), False))
+        out.append((f"pcapng-{tag}-blocks-before-idb", ns.pcapng(pk, le=le, pre_idb=[("raw",) + junk_block(rng, e) for _ in range(rng.randrange(1, 4))]), False))
         out.append((f"pcapng-{tag}-tsoffset-then-tsresol9", ns.pcapng(pk, le=le, tsresol=9, tsoffset=off, offset_first=True), False))
         out.append((f"pcapng-{tag}-extra-options", ns.pcapng(pk, le=le, tsresol=rng.choice([None, 6, 9]), tsoffset=rng.choice([None, off]), offset_first=rng.random() < 0.5,
                                                              extra_opts=True, epb_opts=True), False))
